@@ -309,6 +309,10 @@ impl<Ctrl, Strm, Ctxt> Camera<Ctrl, Strm, Ctxt> {
             return Err(CameleonError::GenApiContextMissing);
         }
 
+        // Create the payload channel first: this panics if `cap` is zero, and that must happen
+        // before the device is put into the acquisition state.
+        let (sender, receiver) = channel(cap, DEFAULT_BUFFER_CAP);
+
         // Enable streaimng.
         self.ctrl.enable_streaming()?;
         let mut ctxt = self.params_ctxt()?;
@@ -316,7 +320,6 @@ impl<Ctrl, Strm, Ctxt> Camera<Ctrl, Strm, Ctxt> {
         expect_node!(&ctxt, "AcquisitionStart", as_command).execute(&mut ctxt)?;
 
         // Start streaming loop.
-        let (sender, receiver) = channel(cap, DEFAULT_BUFFER_CAP);
         self.strm.start_streaming_loop(sender, &mut self.ctrl)?;
 
         info!("start streaming successfully");
